@@ -69,12 +69,13 @@ func (w *World) CheckLifecycle(out *Outcome, o *Obs) []Violation {
 		before, after map[string][]int
 		aps, init     []int
 		initFault     bool
+		afterInst     map[string]int // after-instantiation callbacks per processor
 	}
 	lives := map[string]*life{}
 	get := func(id string) *life {
 		l := lives[id]
 		if l == nil {
-			l = &life{before: map[string][]int{}, after: map[string][]int{}}
+			l = &life{before: map[string][]int{}, after: map[string][]int{}, afterInst: map[string]int{}}
 			lives[id] = l
 		}
 		return l
@@ -89,6 +90,11 @@ func (w *World) CheckLifecycle(out *Outcome, o *Obs) []Violation {
 			}
 		case "aps":
 			get(e.Subj).aps = append(get(e.Subj).aps, e.Seq)
+		case "afterInst":
+			p, n := procOf(e.Subj)
+			if id := w.instByName(n); id != "" {
+				get(id).afterInst[p]++
+			}
 		case "before", "after":
 			p, n := procOf(e.Subj)
 			id := w.instByName(n)
@@ -276,6 +282,11 @@ func (w *World) CheckLifecycle(out *Outcome, o *Obs) []Violation {
 					// being put together: only the processors in front of it are at work by then
 					// (at most once each, see above)
 					break
+				}
+				// every instantiation-aware processor is asked once after the component was instantiated,
+				// whether or not the component has anything to populate
+				if (pr.Class == "inst" || pr.Class == "smart") && !pr.Lazy && l.afterInst[pr.ID] != 1 && !w.replacedBeforeInstantiation(i.ID) {
+					vs = append(vs, v("C05", "after-instantiation-callback-not-exactly-once", i.ID, fmt.Sprintf("created component %s: instantiation-aware processor %s saw %d after-instantiation callbacks", i.ID, pr.ID, l.afterInst[pr.ID])))
 				}
 				if len(l.before[pr.ID]) != 1 || len(l.after[pr.ID]) != 1 {
 					vs = append(vs, v("C05", "processor-callbacks-not-exactly-once", i.ID, fmt.Sprintf("created component %s: processor %s saw %d before- and %d after-initialization callbacks", i.ID, pr.ID, len(l.before[pr.ID]), len(l.after[pr.ID]))))
